@@ -407,4 +407,58 @@ theorem model_grid_cell (cc : Nat) (rows : List (List α)) (r i : Nat) (row : Li
   have := fillLineG_at width skip mk cc row 0 (List.replicate cc blankCell) i c hc hskip hw (by simpa using hcc) (by simpa using hcc)
   simpa using this
 
+/-! ### the size of the grid `ToModelTable` builds -/
+
+/-- the number of cells of a grid -/
+def gridCells (g : List (List MCell)) : Nat := (g.map List.length).sum
+
+theorem setCell_shape (g : List (List MCell)) (r c : Nat) (cell : MCell) :
+    (setCell g r c cell).map List.length = g.map List.length := by
+  unfold setCell
+  apply List.ext_getElem?
+  intro i
+  simp only [List.getElem?_map, List.getElem?_modify]
+  cases g[i]? with
+  | none => rfl
+  | some row =>
+    by_cases h : r = i <;> simp [h]
+
+theorem fillRowG_shape (cc rowIdx : Nat) : ∀ (cells : List α) (col : Nat) (g : List (List MCell)),
+    (fillRowG width skip mk cc rowIdx cells col g).map List.length = g.map List.length := by
+  intro cells
+  induction cells with
+  | nil => intro col g; rfl
+  | cons c rest ih =>
+    intro col g
+    simp only [fillRowG]
+    split
+    · rfl
+    · split
+      · exact ih _ _
+      · rw [ih, setCell_shape]
+
+theorem fillRowsG_shape (cc : Nat) : ∀ (rows : List (List α)) (k : Nat) (g : List (List MCell)),
+    (fillRowsG width skip mk cc rows k g).map List.length = g.map List.length := by
+  intro rows
+  induction rows with
+  | nil => intro k g; rfl
+  | cons row rest ih =>
+    intro k g
+    simp only [fillRowsG]
+    rw [ih, fillRowG_shape]
+
+theorem newGrid_shape (n cc : Nat) : (newGrid n cc).map List.length = List.replicate n cc := by
+  simp [newGrid]
+
+/-- **model_grid_shape**. The grid `ToModelTable` builds has one row per parsed row and
+`colCount` cells in every row, whatever the cells say: `n x cc` cells. -/
+theorem model_grid_shape (cc : Nat) (rows : List (List α)) :
+    (fillRowsG width skip mk cc rows 0 (newGrid rows.length cc)).map List.length = List.replicate rows.length cc := by
+  rw [fillRowsG_shape, newGrid_shape]
+
+theorem model_grid_cells (cc : Nat) (rows : List (List α)) :
+    gridCells (fillRowsG width skip mk cc rows 0 (newGrid rows.length cc)) = rows.length * cc := by
+  unfold gridCells
+  rw [model_grid_shape]
+  simp
 end Tabula.Render
